@@ -340,14 +340,6 @@ impl HuffmanTable {
             return Err(err::MissingWeights);
         }
 
-        // The decoding table has at most 2^MAX_MAX_NUM_BITS entries. Bail out early if the weights
-        // don't fit, before any of the state below is touched.
-        if weight_sum > (1 << MAX_MAX_NUM_BITS) {
-            return Err(err::MaxBitsTooHigh {
-                got: highest_bit_set(weight_sum) as u8,
-            });
-        }
-
         let max_bits = highest_bit_set(weight_sum) as u8;
         proof {
             assert(self.weights@.subrange(0, self.weights@.len() as int) =~= self.weights@);
@@ -417,6 +409,10 @@ impl HuffmanTable {
             lemma_kraft_is_rsc(bseq, max_bits as int);
         }
         self.max_num_bits = max_bits;
+
+        if max_bits > MAX_MAX_NUM_BITS {
+            return Err(err::MaxBitsTooHigh { got: max_bits });
+        }
 
         self.bit_ranks.clear();
         self.bit_ranks.resize((max_bits + 1) as usize, 0);
